@@ -16,8 +16,10 @@ Fixpoint bitsLen_loop (fuel : nat) (n len : Z) : Z :=
   end.
 Definition bitsLen (n : Z) : Z := if n <=? 1 then 1 else bitsLen_loop 64 (n - 1) 0.
 
-(* func clamp(v, lo, hi) : v < lo -> lo ; v > hi -> hi ; v *)
-Definition go_clamp (v lo hi : Z) : Z := if v <? lo then lo else if v >? hi then hi else v.
+(* func clamp(v, lo, hi) : if v < lo || v > hi { return lo } ; return v
+   (until commit 44f34f1 the v > hi case returned hi: finding F07, P = 8 NEAR = 34 gave T3 = 255
+   where T.87 has 177) *)
+Definition go_clamp (v lo hi : Z) : Z := if (v <? lo) || (v >? hi) then lo else v.
 
 (* func computeThresholds(maxVal, near). The divisions have non-negative operands for every
    maxVal >= 0; maxVal + 1 = 0 (precision byte >= 64 in the decoders) is a Go division by zero
